@@ -23,6 +23,11 @@ KF(ev) ==
   ELSE IF /\ ev.op = "eq" /\ ev.fam = "dict" /\ ev.kvnull
           /\ ev.ta = ev.tb /\ ev.a = ev.b /\ ev.r = FALSE
   THEN "C02-dictionary-eq-null-value-vs-null-key"
+  (* Known finding: `==` on sparse unions compares every child over the whole range,   *)
+  (* i.e. also the slots of children that the type ids do not select                   *)
+  ELSE IF /\ ev.op = "eq" /\ ev.fam = "union-sparse"
+          /\ ev.ta = ev.tb /\ ev.a = ev.b /\ ev.r = FALSE
+  THEN "C02-sparse-union-eq-compares-unselected-children"
   ELSE ""
 
 Init2 == Init /\ l = 1
